@@ -3,3 +3,21 @@
 -/
 import D42.Props.C14
 import D42.Props.SubstProg
+
+namespace D42
+open SP
+
+/-- what the `isinstance` ladder AS EXTRACTED FROM THE SOURCE builds for a plain value is a schema that accepts that value
+    (`fromNative_eq_extracted` composed with `fromNative_accepts`) -/
+theorem extracted_ladder_accepts (env : Env) (v : PyVal) (s : Schema) (p : Path)
+    (hs : build (classify Gen.SubstProg.ladder v) v = .ok s) (hn : NoNaN v) (hd : DistinctKeys v) :
+    validateP env false s v p = [] :=
+  fromNative_accepts env v s p (by rw [fromNative_eq_extracted]; exact hs) hn hd
+
+/-- … and whatever it refuses, it refuses with ValueError -/
+theorem extracted_ladder_error_kind (v : PyVal) (e : PyExc)
+    (h : build (classify Gen.SubstProg.ladder v) v = .error e) : e = .valueError := by
+  rw [← fromNative_eq_extracted] at h
+  exact fromNative_error_kind v e h
+
+end D42
